@@ -175,7 +175,7 @@ def _plain(x):
         return x
     if isinstance(x, (list, tuple)):
         return [_plain(y) for y in x]
-    return repr(x)
+    return "<%s>" % type(x).__name__
 
 
 # ---------------------------------------------------------------------------
